@@ -287,8 +287,13 @@ class SingleObserverExpression(ObserverExpression):
         )
 
     def _create_graphs(self, branches):
+        # Parallel branches may repeat (for example "a.[b,b]"): observing
+        # the same thing twice is the same as observing it once, as it
+        # already is for "b,b" at the top level.
         return [
-            ObserverGraph(node=self._observer, children=branches),
+            ObserverGraph(
+                node=self._observer, children=list(dict.fromkeys(branches))
+            ),
         ]
 
 
